@@ -9,7 +9,7 @@ ObsInit == \E i \in 1..Len(Rec) :
    /\ hist = Rec[i].observed
    /\ running = Rec[i].observed[Len(Rec[i].observed)].running
    /\ term = Rec[i].observed[Len(Rec[i].observed)].term
-   /\ hb = 0 /\ failNext = 0 /\ panicArmed = FALSE
+   /\ hb = 0 /\ failNext = 0 /\ panicArmed = FALSE /\ defer = 0
 ObsNext == UNCHANGED vars
 
 \* was a scripted panic armed and not yet consumed before step i?
@@ -18,6 +18,9 @@ Armed(i) == IF i <= 1 THEN FALSE
             ELSE IF hist[i - 1].e = "SendPanic" THEN TRUE
             ELSE IF hist[i - 1].term = "panic" /\ (i = 2 \/ hist[i - 2].term # "panic") THEN FALSE
             ELSE Armed(i - 1)
+\* number of consecutive unsettled gossip commands right before step i
+RECURSIVE Queued(_)
+Queued(i) == IF i <= 1 \/ ~hist[i - 1].nosettle THEN 0 ELSE 1 + Queued(i - 1)
 RunningBefore(i) == i = 1 \/ hist[i - 1].running
 TermBefore(i) == IF i = 1 THEN "none" ELSE hist[i - 1].term
 
@@ -35,5 +38,9 @@ C19_Observed ==
          /\ s.e = "RecvSynBad" => (Len(s.sends) = 1 /\ s.sends[1].t = "Bad")
          /\ s.e = "RecvFatal" => s.term = "err"
          /\ s.e = "Shutdown" => s.term = "ok"
-    /\ (RunningBefore(i) /\ Armed(i) /\ SendsOf(s.e) # <<>>) => s.term = "panic"
+    /\ (RunningBefore(i) /\ Armed(i) /\ SendsOf(s.e) # <<>> /\ ~s.nosettle) => s.term = "panic"
+    \* gossip commands queued before this event (issued without waiting) are served first, in order, and
+    \* swallow nothing: the event's own effect (in particular a shutdown) still happens
+    /\ (RunningBefore(i) /\ ~Armed(i) /\ ~s.nosettle) =>
+         LET q == Queued(i) IN Len(s.sends) >= q /\ \A j \in 1..q : s.sends[j].t = "Syn"
 ==================================================================================
